@@ -302,6 +302,11 @@ def _build_jobs(tier: str, seed: int, prints: list[Any]) -> tuple[list[dict[str,
             jobs.append({"job": "dispatch", "scenario": None, "synth": None,
                          "items": cs._items_for(v, only if v["required"] else {"valid": "run"}, children={}, rets=(3,))})
     jobs += cs.synth_dispatch_jobs(scs, classes, tier, rnd)
+    if tier == "thorough":
+        # the whole matrix over the real tree once more with third-party plugins installed (found first / last)
+        rich = [s for s in scs if not s["design"]["refused"] and len(s["design"]["tree"]) >= 3]
+        for n, j in enumerate(cs.real_dispatch_jobs(specs, classes, "quick")):
+            jobs.append(dict(j, scenario=cs.concrete(rich[n % len(rich)], cs.NAMES1), synth="first" if n % 2 else "last"))
     jobs += cs.load_jobs(scs, tier)
     jobs += cs.lookup_jobs(lks, tier)
     jobs += cs.showcfg_jobs(tier)
@@ -468,6 +473,17 @@ def _selftest(rep: Report, recs: list[dict[str, Any]], verdicts: dict[int, str])
     add("plugins: command not listed", pick(lambda r: r["kind"] == "plugins"),
         lambda r: r["found"].__setitem__(len(r["found"]) - 1, False), "P2/command")
     add("hr: exit 0", pick(lambda r: r["kind"] == "hr"), lambda r: r.update(exit=0), "H1/")
+    # one mutant of the harness's own fake plugin
+    from harness import x17_run as R
+
+    try:
+        m = R.run_job({"job": "load", "synth": "last", "map": 1, "mutant": True,
+                       "scenario": {"names": cs.NAMES1, "descs": cs.DESCS,
+                                    "pls": [{"leaves": [[["a", "a"], "c1aa"], [["b"], "c1b"]], "desc": ""},
+                                            {"leaves": [], "desc": ""}]}})["records"][0]
+    finally:
+        R.cleanup()
+    muts.append(("fake plugin registers another class than the ground truth", clone(m), "L1/"))
     if not muts:
         raise Machinery("binding self-test: no accepted record to corrupt")
     for n, (_, r, _) in enumerate(muts):
